@@ -117,6 +117,7 @@ def render(tag, spec):
         ww.meta['tally'] = tally
         return None
     w.add('events', ('counters-equal-outcomes', oracle))
+    ref_fs = w.add('fsdump')
 
     def oracle_sum(line, raw, ww):
         tally = ww.meta.get('tally')
@@ -136,6 +137,19 @@ def render(tag, spec):
         addressed_first_dir = any(core.unhx(spec['cfgs'][cfgno - 1].split()[2]).decode() == d0 and
                                   [k for k, _ in Line(ww.impl[i]).events] in ([], ['L'])
                                   for i in call_idx for cfgno in [int(ww.ops[i].split()[1])])
+        # every snapshot TEST the summary calls obsolete is an entry of some snapshot file (a line of a stored value
+        # that merely looks like a header is not an item)
+        from suites import parse_snap
+        headers = set()
+        for pth, content in core.parse_fs(ww.impl[ref_fs]).items():
+            for tid, _ in (parse_snap(content) or []):
+                headers.add(tid)
+        sect = re.search(r'snapshot tests? (?:obsolete|removed)\n((?:.*\n)*?)(?:\n|$)', text)
+        if sect:
+            for row in sect.group(1).split('\n'):
+                mm = re.search(r'• (.*)$', row)
+                if mm and mm.group(1).encode('utf-8', 'surrogateescape') not in headers and not any(h.decode('utf-8', 'replace') == mm.group(1) for h in headers):
+                    return 'the summary lists the obsolete test %r: no snapshot file has such an entry' % mm.group(1)
         if spec.get('orphan') and addressed_first_dir and 'orphan_file.snap' not in text:
             return 'the summary does not list the obsolete file orphan_file.snap that Clean judged obsolete'
         if spec.get('orphan') and addressed_first_dir:
@@ -144,6 +158,23 @@ def render(tag, spec):
                 return 'one obsolete file (orphan_file.snap): the summary must list it once under a header counting 1 file, got %r' % text[:400]
         return None
     w.add('clean %s - %d' % (spec['sort'], spec.get('count', 1)), ('summary-equals-outcomes', oracle_sum))
+
+    def oracle_sum2(line, raw, ww):
+        # Clean called again in the same process (a TestMain that cleans twice, a helper that calls it per package):
+        # the outcomes of the run are what they were
+        tally = ww.meta.get('tally')
+        if tally is None:
+            return None
+        text = line.out.decode('utf-8', 'replace')
+        nums = {}
+        for verb in ('passed', 'failed', 'added', 'updated', 'skipped'):
+            mm = re.search(r'(\d+) snapshots? %s\n' % verb, text)
+            nums[verb] = int(mm.group(1)) if mm else 0
+        want = dict(tally, skipped=nskips)
+        if nums != want:
+            return 'the summary of a second Clean shows %r, outcomes were %r' % (nums, want)
+        return None
+    w.add('clean %s - %d' % (spec['sort'], spec.get('count', 1)), ('second-summary-equals-outcomes', oracle_sum2))
     return w
 
 
